@@ -92,7 +92,7 @@ fn check_template(case: &Value, t: &Template, root: &Path, offset: i64) -> Optio
         fs::write(&p, suffix).unwrap();
         bystanders.insert(rel(&p), suffix.as_bytes().to_vec());
     }
-    let roller: Box<dyn Roll> = if t.name == "env" || (case["kind"] == "delete" && base % 2 == 1) {
+    let make_roller = || -> Result<Box<dyn Roll>, Value> { Ok(if t.name == "env" || (case["kind"] == "delete" && base % 2 == 1) {
         // built from a configuration value; `base` is left out where it is the default 0
         let doc = if case["kind"] == "delete" {
             json!({})
@@ -105,15 +105,21 @@ fn check_template(case: &Value, t: &Template, root: &Path, offset: i64) -> Optio
         let kind = if case["kind"] == "delete" { "delete" } else { "fixed_window" };
         match log4rs::config::Deserializers::default().deserialize::<dyn Roll>(kind, v) {
             Ok(r) => r,
-            Err(e) => return Some(json!({"what": "roller from configuration failed", "error": e.to_string()})),
+            Err(e) => return Err(json!({"what": "roller from configuration failed", "error": e.to_string()})),
         }
     } else if case["kind"] == "delete" {
         Box::new(DeleteRoller::new())
     } else {
         match FixedWindowRoller::builder().base(base).build(&t.pattern, count) {
             Ok(r) => Box::new(r),
-            Err(e) => return Some(json!({"what": "roller build failed", "error": e.to_string()})),
+            Err(e) => return Err(json!({"what": "roller build failed", "error": e.to_string()})),
         }
+    }) };
+    // a roller keeps nothing between rolls (FixedWindow.tla has no roller state): which instance performs a roll plays
+    // no part - a second instance for the same pattern (what a reconfiguration leaves behind) takes every third roll
+    let (roller, roller2) = match (make_roller(), make_roller()) {
+        (Ok(a), Ok(b)) => (a, b),
+        (Err(e), _) | (_, Err(e)) => return Some(e),
     };
     let other = if t.name == "cross-mount" { Scratch::other_mount("fw") } else { None };
     if t.name == "cross-mount" && other.is_none() {
@@ -133,7 +139,7 @@ fn check_template(case: &Value, t: &Template, root: &Path, offset: i64) -> Optio
         }
         let c = roll["content"].as_i64().unwrap();
         fs::write(&active, content(c)).unwrap();
-        match catch(|| roller.roll(&active)) {
+        match catch(|| if k % 3 == 1 { roller2.roll(&active) } else { roller.roll(&active) }) {
             Ok(Ok(())) => {}
             Ok(Err(e)) => return Some(json!({"what": "roll returned an error", "roll": k + 1, "error": e.to_string()})),
             Err(p) => return Some(json!({"what": "roll panicked", "roll": k + 1, "error": p})),
